@@ -5,4 +5,4 @@ import sys
 sys.path[:0] = ['/repo' + "/pulser-core", '/repo' + "/pulser-simulation", "/verif"]
 from symx.replay import replay
 sys.exit(replay(check='checks.c18', kernel='switch', shape={'program': 'timing', 'sym': [['ryd_loc', 'custom_phase_jump_time']], 'strict': True},
-                assignment={'buf#1.start': 0, 'buf#1.end': 0, 'buf#2.start': 0, 'buf#2.end': 1, 'buf#3.start': 0, 'buf#3.end': 0, 'buf#4.start': 0, 'buf#4.end': 1, 'buf#7.start': 0, 'buf#7.end': 0, 'buf#8.start': 0, 'buf#8.end': 1, 'ryd_loc.custom_phase_jump_time': 23}, label='strict:identical_timeline'))
+                assignment={'buf#1.start': 0, 'buf#1.end': 1, 'buf#2.start': 0, 'buf#2.end': 1, 'buf#3.start': 0, 'buf#3.end': 6, 'buf#4.start': 0, 'buf#4.end': 7, 'buf#7.start': 0, 'buf#7.end': 2, 'buf#8.start': 0, 'buf#8.end': 3, 'ryd_loc.custom_phase_jump_time': 50}, label='strict:identical_timeline'))
